@@ -23,6 +23,7 @@ Definition run (fam : bytes) (c : value) : value :=
   else if beq fam (B "lauth") then run_lauth c
   else if beq fam (B "slot") then run_slot c
   else if beq fam (B "slotm") then run_slotm c
+  else if beq fam (B "sloti") then (match c with VL [_; inner] => run_slotm inner | _ => verr end)
   else if beq fam (B "fs") then run_fs c
   else if beq fam (B "fsm") then run_fsm c
   else if beq fam (B "proxy") then run_proxy c
@@ -36,7 +37,7 @@ Definition chk (prop fam : bytes) (c o : value) : bool :=
   else if beq prop (B "C01") then chk_C01 fam c o
   else if beq prop (B "C02") then (if beq fam (B "sock") then chk_C02 c o else true)
   else if beq prop (B "C03") then (if beq fam (B "sock") then chk_C03 c o else if beq fam (B "tls") then chk_C20 c o else true)
-  else if beq prop (B "C04") then (if beq fam (B "sock") || beq fam (B "srv") then chk_C04 c o else true)
+  else if beq prop (B "C04") then (if beq fam (B "sock") || beq fam (B "srv") then chk_C04 c o else if beq fam (B "tls") then chk_C20 c o else true)
   else if beq prop (B "C05") || beq prop (B "C06") then (if beq fam (B "srv") then chk_route c o else if beq fam (B "srvm") then chk_route_multi c o
                                                            else if beq fam (B "srvi") then (match c with VL [_; inner] => chk_route_multi inner o | _ => true end) else true)
   else if beq prop (B "C09") then (if beq fam (B "bauth") then chk_C09 c o else if beq fam (B "bauthm") then chk_C09m c o else true)
@@ -48,11 +49,11 @@ Definition chk (prop fam : bytes) (c o : value) : bool :=
                                         else if beq fam (B "proxy") then chk_C11 c o else if beq fam (B "tls") then chk_C20 c o else true)
   else if beq prop (B "C11") then (if beq fam (B "fs") then chk_C11_fs c o else chk_C11 c o)
   else if beq prop (B "C20") then (if beq fam (B "tls") then chk_C20 c o else if beq fam (B "tlsraw") then chk_tlsraw c o else true)
-  else if beq prop (B "C15") then (if beq fam (B "slot") then chk_C15 c o else if beq fam (B "slotm") then chk_C15m c o else true)
+  else if beq prop (B "C15") then (if beq fam (B "slot") then chk_C15 c o else if beq fam (B "slotm") then chk_C15m c o else if beq fam (B "sloti") then (match c with VL [_; inner] => chk_C15m inner o | _ => true end) else true)
   else if beq prop (B "C17") then chk_C17 fam c o
   else if beq prop (B "C14") then (if beq fam (B "copier") then chk_C14 c o else true)
   else if beq prop (B "C18") then (if beq fam (B "sock") then chk_C18 c o else if beq fam (B "socklate") then chk_C18_late c o else if beq fam (B "stream") then chk_stream c o else true)
-  else if beq prop (B "C19") then (if beq fam (B "sock") || beq fam (B "sockl") then chk_C19_sock c o else if beq fam (B "srv") then chk_C19_srv c o else if beq fam (B "socknet") then chk_C19_net c o else if beq fam (B "tls") then chk_C20 c o else true)
+  else if beq prop (B "C19") then (if beq fam (B "sock") || beq fam (B "sockl") then chk_C19_sock c o else if beq fam (B "srv") then chk_C19_srv c o else if beq fam (B "socknet") then chk_C19_net c o else if beq fam (B "tls") then chk_C20 c o else if beq fam (B "tlsraw") then chk_tlsraw c o else true)
   else true.
 
 (* decimal I/O for the driver (arbitrary precision) *)
